@@ -153,6 +153,7 @@ func exec(line string) hx.Result {
 	depth := 0
 	maxDepth := 0
 	reverts, nestedReverts := 0, 0
+	commits, commitWithLive := 0, 0
 	atSnap := map[int][]fieldObs{}
 	bad := hx.Result{Out: "bad-op"}
 	for _, o := range strings.Split(f[1], ";") {
@@ -282,6 +283,36 @@ func exec(line string) hx.Result {
 				}
 				depth = i
 			}
+		case (a[0] == "cm" || a[0] == "ct") && len(a) == 1:
+			// StateDB.Commit / CommitToCacheDB: deletes the self-destructed accounts and their storage, cuts the snapshot stack
+			var dead []int
+			for i, ad := range addrs {
+				if sd.HasSuicided(ad) {
+					dead = append(dead, i)
+				}
+			}
+			var err error
+			if a[0] == "cm" {
+				err = sd.Commit()
+			} else {
+				err = sd.CommitToCacheDB()
+			}
+			if err != nil {
+				return bad
+			}
+			commits++
+			after := observeFields(sd)
+			per := 8
+			for _, i := range dead {
+				g := after[i*per : (i+1)*per]
+				if g[0].val != "0" || g[1].val != "-" || g[6].val != "0" || g[7].val != "-/-/-" {
+					fail("commit-leaves-selfdestructed-account", fmt.Sprintf("after %s address %d (self-destructed) still has nonce=%s codehash=%s suicided=%s state=%s", a[0], i, g[0].val, g[1].val, g[6].val, g[7].val))
+				}
+			}
+			if depth > 0 {
+				commitWithLive++
+			}
+			depth = 0 // every snapshot id handed out so far is dead now
 		case a[0] == "cc" && len(a) == 1:
 			cache.Commit()
 		case a[0] == "bc" && len(a) == 1:
@@ -303,6 +334,9 @@ func exec(line string) hx.Result {
 		res.Out = strings.Join(outs, " | ")
 	}
 	res.Kind = fmt.Sprintf("depth%d-rev%d-nested%d", capInt(maxDepth, 4), capInt(reverts, 3), capInt(nestedReverts, 2))
+	if commits > 0 {
+		res.Kind += fmt.Sprintf("-commit%d-live%d", capInt(commits, 2), capInt(commitWithLive, 1))
+	}
 	if reverts > 0 {
 		res.Key = line
 	}
@@ -376,6 +410,12 @@ func gen(r *hx.Rand, tier string, i int) string {
 			if i >= 0 && i < depth {
 				depth = i
 			}
+		case x >= 97 && x < 99:
+			ops = append(ops, []string{"cm", "ct"}[r.Intn(2)])
+			if r.Chance(60) && depth > 0 { // a revert/discard of an id from before the commit: must be rejected
+				ops = append(ops, []string{"rev:", "dis:"}[r.Intn(2)]+strconv.Itoa(r.Intn(depth)), "o")
+			}
+			depth = 0
 		case x < 95:
 			i := depth - 1 - r.Intn(2)
 			if r.Chance(10) {
@@ -397,7 +437,7 @@ func main() {
 	k0 := hx.Hex(crypto.Keccak256([]byte{0x60, 0x00}))
 	hx.Main(hx.Prop{
 		ID:   "C08",
-		Rule: "histories (optionally after pre-populating overlay and store through CacheDB.Commit / block commit) of SetState/SetNonce/SetCode/AddBalance/SubBalance/Suicide/AddLog/AddRefund/SubRefund over 5 addresses (incl. the ONG contract address) and 3 slots, interleaved with Snapshot, RevertToSnapshot (top, nested below top, invalid ids), DiscardSnapshot. Non-trivial = at least one successful revert; kinds = max snapshot depth / number of reverts / reverts below the top of the stack",
+		Rule: "histories (optionally after pre-populating overlay and store through CacheDB.Commit / block commit) of SetState/SetNonce/SetCode/AddBalance/SubBalance/Suicide/AddLog/AddRefund/SubRefund over 5 addresses (incl. the ONG contract address) and 3 slots, interleaved with Snapshot, RevertToSnapshot (top, nested below top, invalid ids), DiscardSnapshot, and (2%) StateDB.Commit / CommitToCacheDB followed by a revert/discard of an id from before the commit (must be rejected). Non-trivial = at least one successful revert; kinds = max snapshot depth / number of reverts / reverts below the top of the stack",
 		Gen:  gen,
 		Exec: exec,
 		Corpus: []string{
@@ -407,6 +447,9 @@ func main() {
 			"E sc:3:6000:" + k0 + ";snap;sc:3:-:" + hx.Hex(crypto.Keccak256(nil)) + ";o;snap;al:01;al:02;rev:1;al:03;o;rev:0;o",
 			"E ab:4:2500000000;cc;snap;sb:4:500000000;sb:4:9000000000;o;snap;ss:4:2:ff;dis:1;rev:0;o",
 			"E al:-;snap;al:01;snap;al:02;rev:1;al:03;snap;al:04;rev:0;al:05;o",
+			"E ss:1:1:07;sn:1:5;ss:2:0:09;sn:2:1;cc;ss:1:2:08;snap;su:1;cm;o;rev:0;snap;sn:2:3;rev:0;o",
+			"E sn:4:1;ab:0:1000000000;ab:4:2000000000;cc;bc;snap;su:4;ct;o;dis:0;o",
+			"E sn:1:1;sn:2:1;ss:1:0:01;ss:2:0:02;ss:2:2:03;snap;su:2;su:1;snap;ct;o;cm;o",
 		},
 		N: map[string]int{"quick": 8000, "thorough": 200000},
 	})
